@@ -422,7 +422,72 @@ def wrappers():
                  % (name, type(e).__name__, e))
 
 
+def splits():
+    """socp / sdp pieces are exactly the blocks of conelp's s and z"""
+    import random
+    random.seed(7)
+    n = 3
+    c = matrix([1.0, -0.5, 0.3])
+    Gl = matrix([[1., 0.5], [0., 1.], [0.3, -1.]])
+    hl = matrix([2.0, 3.0])
+    # sdp with an 'l' block and two 's' blocks
+    ms = [2, 3]
+    Gs = [matrix([[random.uniform(-1, 1) for _ in range(m * m)]
+                  for _ in range(n)]) for m in ms]
+    for k, m in enumerate(ms):      # symmetrise the columns
+        for j in range(n):
+            M = matrix(Gs[k][:, j], (m, m))
+            Gs[k][:, j] = ((M + M.T) / 2.0)[:]
+    hs = [matrix(0.0, (m, m)) for m in ms]
+    for k, m in enumerate(ms):
+        hs[k][::m + 1] = 5.0
+    try:
+        sol = solvers.sdp(c, Gl, hl, Gs, hs)
+        G = matrix([Gl] + Gs)
+        h = matrix([hl] + [hk[:] for hk in hs])
+        ref = solvers.conelp(c, G, h, {'l': 2, 'q': [], 's': ms})
+        if sol['status'] == ref['status'] == 'optimal':
+            off = 2
+            if list(sol['zl']) != list(ref['z'][:2]) or list(sol['sl']) != \
+                    list(ref['s'][:2]):
+                fail('block-split', "sdp(l+s): sl/zl are not the 'l' block "
+                     "of conelp's s/z")
+            for k, m in enumerate(ms):
+                if list(sol['zs'][k]) != list(ref['z'][off:off + m * m]) or \
+                        list(sol['ss'][k]) != list(ref['s'][off:off + m * m]):
+                    fail('block-split', "sdp(l+s): ss/zs[%d] is not block "
+                         "%d of conelp's s/z" % (k, k))
+                off += m * m
+    except Exception as e:
+        fail('battery-error', 'sdp split: %r' % e)
+    # socp with an 'l' block and two 'q' blocks
+    mq = [3, 4]
+    Gq = [matrix([[random.uniform(-1, 1) for _ in range(m)]
+                  for _ in range(n)]) for m in mq]
+    hq = [matrix([6.0] + [0.0] * (m - 1)) for m in mq]
+    try:
+        sol = solvers.socp(c, Gl, hl, Gq, hq)
+        G = matrix([Gl] + Gq)
+        h = matrix([hl] + hq)
+        ref = solvers.conelp(c, G, h, {'l': 2, 'q': mq, 's': []})
+        if sol['status'] == ref['status'] == 'optimal':
+            off = 2
+            if list(sol['zl']) != list(ref['z'][:2]) or list(sol['sl']) != \
+                    list(ref['s'][:2]):
+                fail('block-split', "socp(l+q): sl/zl are not the 'l' "
+                     "block of conelp's s/z")
+            for k, m in enumerate(mq):
+                if list(sol['zq'][k]) != list(ref['z'][off:off + m]) or \
+                        list(sol['sq'][k]) != list(ref['s'][off:off + m]):
+                    fail('block-split', "socp(l+q): sq/zq[%d] is not block "
+                         "%d of conelp's s/z" % (k, k))
+                off += m
+    except Exception as e:
+        fail('battery-error', 'socp split: %r' % e)
+
+
 def main():
+    splits()
     for pname, mk in CONELP:
         for eo in ({}, {'maxiters': 3}):
             run_conelp(pname, mk(), eo)
